@@ -27,7 +27,7 @@ def _avg(uops):
     return p
 
 
-def _x86_case(role, shape, row_present, typed_row, vec, nums, mult_present, suffix=False, other_only=False):
+def _x86_case(role, shape, row_present, typed_row, vec, nums, mult_present, suffix=False, other_only=False, pair=0):
     (c_reg, tp_reg, lat_reg, c_ld, c_ldt, c_lddef, c_st, c_stt, c_stdef, L, m_ld, m_st) = nums
     rt = "xmm" if vec else "gpr"
     other = "gpr" if vec else "xmm"
@@ -72,13 +72,26 @@ def _x86_case(role, shape, row_present, typed_row, vec, nums, mult_present, suff
     reg_uops = [[c_reg, "01"]]
     add_entry(model, "op", [RegisterOperand(name=rt), RegisterOperand(name=rt)], tp=tp_reg, lat=lat_reg, uops=reg_uops)
     r = RegisterOperand(name="xmm3" if vec else "rbx")
+    # pair: a second instruction with a data register of the OTHER type on the textually identical
+    # address, analysed with the same model object before (pair=2) or after (pair=1) the first
+    reg_uops_o = [[c_reg + 1, "01"]]
+    if pair:
+        add_entry(model, "op", [RegisterOperand(name=other), RegisterOperand(name=other)], tp=tp_reg + 1, lat=lat_reg + 2, uops=reg_uops_o)
+    ro_ = RegisterOperand(name="rbx" if vec else "xmm3")
+    import copy as _copy
+    mem_o = _copy.deepcopy(mem)
     if role == 0:       # load:  op mem, reg
         ops = [mem, r]
+        ops_o = [mem_o, ro_]
     elif role == 1:     # store: op reg, mem
         ops = [r, mem]
+        ops_o = [ro_, mem_o]
     else:               # read-modify-write: op reg, mem with mem read and written
         ops = [r, mem]
+        ops_o = [ro_, mem_o]
         add_entry(isa_model, "op", [RegisterOperand(name=rt, source=True), MemoryOperand(base=W, offset=W, index=W, scale=W, source=True, destination=True)])
+        if pair:
+            add_entry(isa_model, "op", [RegisterOperand(name=other, source=True), MemoryOperand(base=W, offset=W, index=W, scale=W, source=True, destination=True)])
     sem = mk_sem(model, isa_model)
     # with suffix: the instruction is written with an AT&T size suffix while the register form
     # (and the ISA entry) are stored under the suffix-less name
@@ -87,7 +100,11 @@ def _x86_case(role, shape, row_present, typed_row, vec, nums, mult_present, suff
     # a second, unknown instruction must not influence / be influenced
     g = InstructionForm(mnemonic="nosuch", operands=[RegisterOperand(name="rcx"), MemoryOperand(base=RegisterOperand(name="rdx"))], line="nosuch", line_number=2)
     g.flags = []
-    sem.add_semantics([f, g])
+    h = None
+    if pair:
+        h = InstructionForm(mnemonic="opq" if suffix else "op", operands=ops_o, line="op", line_number=3)
+        h.flags = []
+    sem.add_semantics([f, g] if not pair else ([f, h, g] if pair == 1 else [h, f, g]))
     # ---- oracle
     has_ld = role in (0, 2)
     has_st = role in (1, 2)
@@ -113,6 +130,19 @@ def _x86_case(role, shape, row_present, typed_row, vec, nums, mult_present, suff
     ok = ok and list(f.port_uops) == reg_uops + ld_u + st_u
     ok = ok and INSTR_FLAGS.TP_UNKWN not in f.flags and INSTR_FLAGS.LT_UNKWN not in f.flags
     ok = ok and (INSTR_FLAGS.HAS_LD in f.flags) == has_ld and (INSTR_FLAGS.HAS_ST in f.flags) == has_st
+    if pair:
+        ld_o, st_o = [], []
+        if has_ld:
+            ld_o = ([[c_ld + 3, "23"]] if typed_row else [[c_ld, "23"]]) if row_present else [[c_lddef, "23"]]
+        if has_st:
+            st_o = ([[c_st + 3, "3"]] if typed_row else [[c_st, "3"]]) if row_present else [[c_stdef, "3"]]
+        mlo = m_ld + 1 if mult_present else 1
+        mso = m_st + 1 if mult_present else 1
+        p_rego, p_ldo, p_sto = _avg(reg_uops_o), _avg(ld_o), _avg(st_o)
+        data_o = [mlo * a + mso * b for a, b in zip(p_ldo, p_sto)]
+        ok = ok and list(h.port_pressure) == [a + b for a, b in zip(p_rego, data_o)]
+        ok = ok and h.throughput == max(max(data_o), tp_reg + 1) and h.latency == lat_reg + 2 + (L + 5 if has_ld else 0) and h.latency_wo_load == lat_reg + 2
+        ok = ok and list(h.port_uops) == reg_uops_o + ld_o + st_o
     # unknown neighbour
     ok = ok and INSTR_FLAGS.TP_UNKWN in g.flags and INSTR_FLAGS.LT_UNKWN in g.flags
     ok = ok and list(g.port_pressure) == [0.0] * 4 and g.latency == 0 and g.throughput == 0
@@ -156,6 +186,34 @@ def x86_compose(role: int, shape: int, row_present: bool, typed_row: bool, vec: 
         ok = _x86_case(ro, sh, rp, tr, ve, (c_reg, tp_reg, lat_reg, 11.0, 17.0, 23.0, 13.0, 19.0, c_sel_st, L, m_ld, m_st), mp, False, other_only=True)
     return verdict(ok, nontrivial=True, sample=lambda: {"suffix": suffix, "role": ["load", "store", "rmw"][ro], "shape": sh, "row_present": rp, "typed_row": tr, "vec": ve,
                                                        "mult": mp, "c_reg": c_reg, "tp_reg": tp_reg, "lat_reg": lat_reg, "c_ld": c_ld, "L": L})
+
+
+def x86_pair(role: int, shape: int, row_present: bool, typed_row: bool, vec: bool, mult_present: bool, first: bool, c_sel_ld: int, c_sel_st: int) -> bool:
+    """
+    pre: 0 <= role <= 2 and 0 <= shape <= 2 and 0 <= c_sel_ld <= 16 and 0 <= c_sel_st <= 16
+    post: _
+    """
+    # two memory-composed instructions with data registers of different types on the textually identical
+    # address, analysed with ONE model object, in both orders: each gets the rows of its own register type
+    if skip(locals()):
+        return True
+    lo, hi = shard(9)
+    if not (lo <= role * 3 + shape < hi):
+        return True
+    ro, sh = pick(role, 3), pick(shape, 3)
+    rp, tr, ve, mp = (True if x else False for x in (row_present, typed_row, vec, mult_present))
+    if not rp and tr:
+        return True
+    c_ld, c_st, c_ldt, c_stt, c_lddef, c_stdef = 11.0, 13.0, 17.0, 19.0, 23.0, 29.0
+    if rp and tr:
+        c_ldt, c_stt = c_sel_ld, c_sel_st
+    elif rp:
+        c_ld, c_st = c_sel_ld, c_sel_st
+    else:
+        c_lddef, c_stdef = c_sel_ld, c_sel_st
+    ok = _x86_case(ro, sh, rp, tr, ve, (2, 1, 3, c_ld, c_ldt, c_lddef, c_st, c_stt, c_stdef, 4, 2, 1.5), mp, False, pair=1 if first else 2)
+    return verdict(ok, nontrivial=True, sample=lambda: {"role": ["load", "store", "rmw"][ro], "shape": sh, "row_present": rp, "typed_row": tr, "vec": ve, "mult": mp,
+                                                       "order": "this type first" if first else "other type first", "c_sel_ld": c_sel_ld, "c_sel_st": c_sel_st})
 
 
 def _a64_case(mode, is_store, row_present, nums, suffix=False):
@@ -214,6 +272,8 @@ def a64_compose(mode: int, is_store: bool, row_present: bool, suffix: bool, c_re
 
 
 CELLS = {
+    "x86_pair": {"fn": x86_pair, "bound": "two memory-composed instructions (load / store / read-modify-write) with data registers of different types on the textually identical address, analysed with one model object in both orders, over the same table layouts (typed / untyped / default rows, 3 addressing shapes, multipliers); selected row cycles symbolic ints 0..16, other numbers fixed",
+                 "budget": {"quick": 170, "thorough": 600}, "shards": 9},
     "x86_compose": {"fn": x86_compose, "bound": "role {load, store, read-modify-write} x addressing shape {(b), d(b), d(b,i,4)} x {matching row present, only default} x {register-type-specific row present} x {gpr, xmm} x {multipliers present} x {mnemonic with/without size suffix}; register-form cycles/throughput/latency, the selected load and store rows' cycles, load latency and load multiplier symbolic ints (pressures become exact rationals), all other rows distinct concrete markers",
                     "budget": {"quick": 170, "thorough": 900}, "shards": 9},
     "a64_compose": {"fn": a64_compose, "bound": "AArch64 load / store with offset, pre- and post-indexed addressing x row present; register-form numbers, selected row cycles and load latency symbolic ints (pressures become exact rationals)", "budget": {"quick": 170, "thorough": 600}},
